@@ -262,7 +262,7 @@ def reopenG (fixed : Bool) (bytes : List Nat) : Option Chunk :=
 
 /-- Whether /repo's `XORChunk.Appender()` restores the bit offset (`c.b.count = it.br.valid`, fix for F11).
     The suite model follows the tree: flip to `true` together with the `fix:` commit in /repo. -/
-def repoHasF11Fix : Bool := false
+def repoHasF11Fix : Bool := true
 
 def reopen (bytes : List Nat) : Option Chunk := reopenG repoHasF11Fix bytes
 
